@@ -251,4 +251,53 @@ def getComponents (U : UrlCodec) (t : Target) : List Str := ((splitSlash t.path)
 /-- `Request.path_components` setter -/
 def setComponents (U : UrlCodec) (t : Target) (cs : List Str) : Target := { t with path := 47 :: joinSlash (cs.map U.quote) }
 
+/-! ### urlencoded form view -/
+
+def splitAmp : Str → List Str
+  | [] => [[]]
+  | c :: r => if c = 38 then [] :: splitAmp r else (c :: (splitAmp r).headD []) :: (splitAmp r).tail
+
+/-- `any("=" not in param for param in similar_to.split("&"))`, only asked for a non-empty `similar_to` -/
+def bareStyle (similar : Str) : Bool := !similar.isEmpty && (splitAmp similar).any (fun p => !p.contains 61)
+
+/-- `encoded.replace("=&", "&")` -/
+def replEqAmp : Str → Str
+  | [] => []
+  | [c] => [c]
+  | c :: d :: r => if c = 61 ∧ d = 38 then 38 :: replEqAmp r else c :: replEqAmp (d :: r)
+
+def dropTrailingEq (s : Str) : Str := if s.getLast? = some 61 then s.dropLast else s
+
+/-- `url.encode(pairs, similar_to)` -/
+def encodeForm (U : UrlCodec) (ps : List (Str × Str)) (similar : Str) : Str :=
+  if !(U.urlencode ps).isEmpty && bareStyle similar then dropTrailingEq (replEqAmp (U.urlencode ps)) else U.urlencode ps
+
+def hasSub (n : Str) : Str → Bool
+  | [] => n.isEmpty
+  | x :: r => n.isPrefixOf (x :: r) || hasSub n r
+
+def formCT : Str := S "application/x-www-form-urlencoded"
+
+/-- a request as the form view sees it: the Content-Type header (if any) and the body -/
+structure FormMsg where
+  ct : Option Str
+  body : Bytes
+  deriving DecidableEq
+
+structure FormLib where
+  U : UrlCodec
+  /-- `Message.get_text(strict=False)` of a body under a Content-Type header -/
+  getText : Option Str → Bytes → Str
+  /-- `str.encode()` of the (ASCII) urlencoded text -/
+  encodeAscii : Str → Bytes
+
+/-- `Request._get_urlencoded_form` -/
+def getForm (L : FormLib) (m : FormMsg) : List (Str × Str) :=
+  if hasSub formCT (lower (m.ct.getD [])) then L.U.parseQsl (L.getText m.ct m.body) else []
+
+/-- `Request._set_urlencoded_form`: the content type is reset to the bare form type (any charset parameter is dropped) BEFORE the
+    existing body is read for its style -/
+def setForm (L : FormLib) (m : FormMsg) (ps : List (Str × Str)) : FormMsg :=
+  { ct := some formCT, body := L.encodeAscii (encodeForm L.U ps (L.getText (some formCT) m.body)) }
+
 end MitmVerif.C34
